@@ -18,7 +18,7 @@ import (
 
 func main() {
 	r := evid.New("C19", "exploration")
-	nL2 := r.Pick(8, 150)
+	nL2 := r.Pick(8, 450)
 	l2scen := func(seed int64, k int, res *l2.Result) {
 		res.Name = fmt.Sprintf("c19-l2-%d", k)
 		l2.RunSubs(l2.SubsPlanFromSeed(seed, k), res)
